@@ -69,6 +69,8 @@ def setup(cfg):
     else:
         r.tmax = eng.real('tmax')
         eng.assume(symx.lift(r.tmax) > symx.lift(r.tmin) if eng.mode == 'sym' else r.tmax > r.tmin)
+        if cfg.get('tmax_within') is not None and eng.mode == 'sym':
+            eng.assume(symx.lift(r.tmax) <= symx.lift(r.tmin) + cfg['tmax_within'])
     w = cfg.get('weights', 'none')
     r.ew = {}
     r.nw = {}
